@@ -1045,3 +1045,30 @@ package rockredis
 //@   ensures result1 == nil && result0 == 1 && hindex == nil ==> bst(wb, ghost(wbver, wb), hKid(ghost(curtk, db), fId(field))) == 1
 //@   ensures result1 == nil && result0 == 0 && checkNX ==> ghost(wbver, wb) == old(ghost(wbver, wb))
 //@   modifies ghost(wbputs, wb), ghost(wbdels, wb), ghost(wbver, wb), ghost(misses, db), ghost(hits, db), ghost(sizedelta, db), ghost(newsize, db), ghost(sizeupds, db), ghost(tblcnt, db), alloftype(headerMetaValue), value[len(value):cap(value)], ghost(readerrs, db)
+
+//@ property C10
+// local-deletion policy: the background scan hands a key to deletion only when its scheduled time has been reached
+// on this node's clock (never earlier)
+//@ func expDecodeTimeKey(tk []byte) (byte, []byte, int64, error)
+//@   ensures result3 == nil ==> len(tk) >= 10 && result2 == toI64(be64(tk, 1))
+//@ interface (github.com/youzan/ZanRedisDB/rockredis.expiredMetaBuffer).Write func(b expiredMetaBuffer, m *expiredMeta) error
+//@ noeffect (*github.com/youzan/ZanRedisDB/rockredis.TTLChecker).setNextCheckTime (*github.com/youzan/ZanRedisDB/rockredis.TTLChecker).Lock (*github.com/youzan/ZanRedisDB/rockredis.TTLChecker).Unlock
+//@ func expEncodeTimeKey(dataType byte, key []byte, when int64) []byte
+//@   trusted expiry index key layout
+//@   ensures fresh(result)
+//@ func (r *RockDB) NewDBRangeLimitIterator(min []byte, max []byte, rtype uint8, offset int, count int, reverse bool) (*engine.RangeLimitedIterator, error)
+//@   trusted opens an engine iterator (engine contract, C20)
+//@   ensures result0 != nil ==> rliOK(result0)
+//@ interface (github.com/youzan/ZanRedisDB/engine.Iterator).Value func(it engine.Iterator) []byte
+//@   ensures fresh(result)
+//@ noeffect time.Unix (time.Time).Format
+//@ func extractTableFromRedisKey(key []byte) ([]byte, []byte, error)
+//@   trusted split at the first ':' (bytes.IndexByte)
+//@ func (c *TTLChecker) check(expiredBuf expiredMetaBuffer, stop chan struct{}) (err error)
+//@   trusted nooverflow scan counters (fewer than 2^63 keys)
+//@   opt abstract=select
+//@   requires c != nil && c.db != nil && expiredBuf != nil
+//@   callassert Write arg1.UTC <= now && arg1.UTC == toI64(be64(arg1.timeKey, 1))
+//@   modifies *
+//@ loop 1
+//@   invariant it != nil && rliOK(it)
